@@ -1,6 +1,6 @@
 (* C03 — the decoder is total on any bytes and rejects malformed input. *)
 Require Import Scale.Bytes Scale.Eres Scale.Prog Scale.ProgFacts Scale.ProgMore Scale.Chunks Scale.Monitors Scale.CompactImpl
-  Scale.CompactSpec Scale.CompactProofs Scale.CompactTheorems Scale.Utf8 Scale.Codec Scale.CodecEnc Scale.CodecDec Scale.CodecRt Scale.CodecMore.
+  Scale.CompactSpec Scale.CompactProofs Scale.CompactTheorems Scale.Utf8 Scale.Codec Scale.CodecEnc Scale.CodecDec Scale.CodecRt Scale.CodecMore Scale.TraceEq Scale.Depth Scale.Rec.
 
 (* for every well-formed type descriptor and EVERY byte string: an error or a value; never a
    panic (the assert in the bit-sequence decoder, the unreachable!() arms of the compact
@@ -103,6 +103,13 @@ Example C03_nonvacuous :
   runo (dec TStr) true [x08; xc3; x28] = OErr [].
 Proof. repeat split; vm_compute; reflexivity. Qed.
 
+(* recursive derived types (Rec.v): with any recursion budget the decoder returns a value, an error
+   or runs out of budget (the model's rendering of native stack exhaustion, known finding F7) - it
+   never panics; with a depth limit below the budget it does not run out either (C11) *)
+Theorem C03_recursive_never_panics : forall d, wf_rdef d = true -> forall F known bs,
+  runo (rdec F d) known bs <> OPanic.
+Proof. exact rec_never_panics. Qed.
+
 Print Assumptions C03_total.
 Print Assumptions C03_consumes_prefix.
 Print Assumptions C03_compact_exact.
@@ -116,3 +123,4 @@ Print Assumptions C03_duration_nanos_rejected.
 Print Assumptions C03_invalid_utf8_rejected.
 Print Assumptions C03_bits_too_long_rejected.
 Print Assumptions C03_count_exceeds_input_rejected.
+Print Assumptions C03_recursive_never_panics.
